@@ -13,6 +13,10 @@
 //	pdecs data=<hex> | pchk k=I        one decoder for the whole run; the last 8 results stay alive, pchk reads one again
 //	sess data=<hex> [infl=...]         new ClientSession, handshake + ack, ONE Data packet staged -> working
 //	sgo                                the session reads the staged packet -> delivered id= route= data= | closed
+//	srt p=T:<hex>... cut=<a,b,..|all|every:K>   encoder frames, stream cut into fragments, real tcpPlayerConn.GetNextMessage
+//	                                   + packet decoder -> ok p=T:<hex>... end=closed|err
+//	gnm frag=<hex>,<hex>,...           raw fragments through GetNextMessage -> ok m=<hex>... end=closed|err
+//	zrt n=N mode=raw|msg               N-byte compressible payload: Deflate/Inflate, or Encode(compression)/Decode -> ok out=M eq=0|1
 //	<harness-exit ...>                 (replays only) the process died here: runs the staged session
 package c06
 
@@ -38,6 +42,7 @@ import (
 	"github.com/dfklegend/cell2/pomelonet/common/conn/message"
 	"github.com/dfklegend/cell2/pomelonet/common/conn/packet"
 	"github.com/dfklegend/cell2/pomelonet/constants"
+	"github.com/dfklegend/cell2/pomelonet/server/acceptor"
 	"github.com/dfklegend/cell2/pomelonet/server/session"
 	"github.com/dfklegend/cell2/utils/compression"
 	"github.com/dfklegend/cell2/utils/logger"
@@ -357,6 +362,102 @@ func (e *sessEnv) run() string {
 	return strings.Join(out, " ; ")
 }
 
+// ---- stream layer: the real tcpPlayerConn.GetNextMessage over a fragmenting net.Conn ----
+
+// fragConn delivers a byte stream in the given fragments: one Read never crosses a fragment
+// boundary (what a TCP socket does with segments that arrive one by one); io.EOF at the end.
+type fragConn struct {
+	frags [][]byte
+}
+
+func (c *fragConn) Read(p []byte) (int, error) {
+	for len(c.frags) > 0 && len(c.frags[0]) == 0 {
+		c.frags = c.frags[1:]
+	}
+	if len(c.frags) == 0 {
+		return 0, io.EOF
+	}
+	if len(p) == 0 {
+		return 0, nil
+	}
+	n := copy(p, c.frags[0])
+	c.frags[0] = c.frags[0][n:]
+	return n, nil
+}
+func (c *fragConn) Write(b []byte) (int, error)        { return len(b), nil }
+func (c *fragConn) Close() error                       { return nil }
+func (c *fragConn) LocalAddr() net.Addr                { return nil }
+func (c *fragConn) RemoteAddr() net.Addr               { return nil }
+func (c *fragConn) SetDeadline(t time.Time) error      { return nil }
+func (c *fragConn) SetReadDeadline(t time.Time) error  { return nil }
+func (c *fragConn) SetWriteDeadline(t time.Time) error { return nil }
+
+// readStream calls GetNextMessage until it returns no message
+func readStream(frags [][]byte) (msgs [][]byte, end string) {
+	fc := &fragConn{}
+	total := 0
+	for _, f := range frags {
+		fc.frags = append(fc.frags, exact(f))
+		total += len(f)
+	}
+	pc := acceptor.VerifTCPPlayerConn(fc)
+	for i := 0; i <= total+1; i++ {
+		m, err := pc.GetNextMessage()
+		if err == constants.ErrConnectionClosed {
+			return msgs, "closed"
+		}
+		if err != nil {
+			return msgs, "err"
+		}
+		msgs = append(msgs, m)
+	}
+	return msgs, "loop"
+}
+
+// cutStream splits b at the positions given by a `cut=` value: "a,b,c" | "all" | "every:K" | ""
+func cutStream(b []byte, spec string) [][]byte {
+	var pos []int
+	switch {
+	case spec == "all":
+		for i := 1; i < len(b); i++ {
+			pos = append(pos, i)
+		}
+	case strings.HasPrefix(spec, "every:"):
+		k := 0
+		fmt.Sscanf(spec[6:], "%d", &k)
+		for i := k; k > 0 && i < len(b); i += k {
+			pos = append(pos, i)
+		}
+	case spec != "":
+		for _, w := range strings.Split(spec, ",") {
+			k := -1
+			fmt.Sscanf(w, "%d", &k)
+			if k > 0 && k < len(b) {
+				pos = append(pos, k)
+			}
+		}
+		sort.Ints(pos)
+	}
+	var out [][]byte
+	last := 0
+	for _, p := range pos {
+		if p > last {
+			out = append(out, b[last:p])
+			last = p
+		}
+	}
+	return append(out, b[last:])
+}
+
+// zpayload: n compressible bytes
+func zpayload(n int) []byte {
+	b := make([]byte, n)
+	for i := range b {
+		b[i] = byte('a' + i%7)
+	}
+	return b
+}
+
 // exec interprets one op line against the real code.
 func exec(op string) string {
 	ws := hx.Words(op)
@@ -444,6 +545,83 @@ func exec(op string) string {
 				return "none"
 			}
 			return showDec(window[k].ps, window[k].err)
+		})
+	case "srt":
+		return hx.Guard(func() string {
+			var all []byte
+			for _, w := range ws[1:] {
+				if !strings.HasPrefix(w, "p=") {
+					continue
+				}
+				parts := strings.SplitN(w[2:], ":", 2)
+				var t int
+				fmt.Sscanf(parts[0], "%d", &t)
+				body := hx.KVHex([]string{"x=" + parts[1]}, "x")
+				b, err := codec.NewPomeloPacketEncoder().Encode(packet.Type(t), body)
+				if err != nil {
+					return "encerr"
+				}
+				all = append(all, b...)
+			}
+			cut, _ := hx.KV(ws, "cut")
+			msgs, end := readStream(cutStream(all, cut))
+			var sb strings.Builder
+			sb.WriteString("ok")
+			dec := codec.NewPomeloPacketDecoder()
+			for _, m := range msgs {
+				ps, err := dec.Decode(m)
+				if err != nil {
+					sb.WriteString(" bad")
+					continue
+				}
+				for _, p := range ps {
+					fmt.Fprintf(&sb, " p=%d:%s", p.Type, hx.Hex(p.Data))
+				}
+			}
+			return sb.String() + " end=" + end
+		})
+	case "gnm":
+		return hx.Guard(func() string {
+			var frags [][]byte
+			v, _ := hx.KV(ws, "frag")
+			for _, f := range strings.Split(v, ",") {
+				frags = append(frags, hx.KVHex([]string{"x=" + f}, "x"))
+			}
+			msgs, end := readStream(frags)
+			var sb strings.Builder
+			sb.WriteString("ok")
+			for _, m := range msgs {
+				sb.WriteString(" m=" + hx.Hex(m))
+			}
+			return sb.String() + " end=" + end
+		})
+	case "zrt":
+		return hx.Guard(func() string {
+			data := zpayload(hx.KVInt(ws, "n"))
+			mode, _ := hx.KV(ws, "mode")
+			var back []byte
+			if mode == "msg" {
+				// Encode replaces m.Data by the deflated bytes: hand it a copy
+				m := &message.Message{Type: message.Push, Route: "big.payload", Data: append([]byte(nil), data...)}
+				b, err := (&message.MessagesEncoder{DataCompression: true}).Encode(m)
+				if err != nil {
+					return "err"
+				}
+				d, err := message.Decode(b)
+				if err != nil {
+					return "err"
+				}
+				back = d.Data
+			} else {
+				z, err := compression.DeflateData(data)
+				if err != nil {
+					return "err"
+				}
+				if back, err = compression.InflateData(z); err != nil {
+					return "err"
+				}
+			}
+			return fmt.Sprintf("ok out=%d eq=%d", len(back), hx.B2i(string(back) == string(data)))
 		})
 	case "sess":
 		return hx.Guard(func() string { return getSessEnv().stage(hx.KVHex(ws, "data")) })
@@ -803,6 +981,95 @@ func (g *gen) packetsOp() string {
 	return sb.String()
 }
 
+// streamOp: packets for the stream layer and a fragmentation of their byte stream
+func (g *gen) streamOp() string {
+	t := g.t
+	n := 1 + t.R.Intn(4)
+	var sb strings.Builder
+	sb.WriteString("srt")
+	total := 0
+	var starts []int
+	for i := 0; i < n; i++ {
+		typ := 1 + t.R.Intn(5)
+		sz := t.Pick(0, 0, 1, 3, 8, 20, 255, 256, 600)
+		if t.R.Intn(12) == 0 {
+			sz = t.Pick(1500, 4096, 9000)
+		}
+		if t.Thorough() && t.R.Intn(15) == 0 {
+			sz = t.Pick(65535, 65536, 70000)
+		}
+		starts = append(starts, total)
+		total += 4 + sz
+		fmt.Fprintf(&sb, " p=%d:%s", typ, hx.Hex(t.Bytes(sz)))
+	}
+	cut := ""
+	switch t.R.Intn(7) {
+	case 0: // everything in one segment
+		t.Count("srt.cut.none")
+	case 1:
+		if total <= 4000 {
+			cut = "all" // one byte at a time
+			t.Count("srt.cut.all")
+			break
+		}
+		fallthrough
+	case 2:
+		cut = fmt.Sprintf("every:%d", t.Pick(1, 2, 3, 5, 7, 64, 536, 1400, 1460))
+		if total > 4000 && (strings.HasSuffix(cut, ":1") || strings.HasSuffix(cut, ":2") || strings.HasSuffix(cut, ":3")) {
+			cut = "every:1400"
+		}
+		t.Count("srt.cut.every")
+	case 3: // inside headers
+		var cs []string
+		for _, st := range starts {
+			cs = append(cs, fmt.Sprint(st+1+t.R.Intn(3)))
+		}
+		cut = strings.Join(cs, ",")
+		t.Count("srt.cut.in-header")
+	case 4: // header and body written separately
+		var cs []string
+		for _, st := range starts {
+			cs = append(cs, fmt.Sprint(st+4))
+		}
+		cut = strings.Join(cs, ",")
+		t.Count("srt.cut.header|body")
+	case 5: // exactly at the frame boundaries
+		var cs []string
+		for _, st := range starts[1:] {
+			cs = append(cs, fmt.Sprint(st))
+		}
+		cut = strings.Join(cs, ",")
+		t.Count("srt.cut.frames")
+	default: // a few random cuts
+		var cs []string
+		for i := 0; i < 1+t.R.Intn(6); i++ {
+			cs = append(cs, fmt.Sprint(1+t.R.Intn(total)))
+		}
+		cut = strings.Join(cs, ",")
+		t.Count("srt.cut.random")
+	}
+	return sb.String() + " cut=" + cut
+}
+
+// rawFragsOp: a malformed (or valid) byte stream in random fragments
+func (g *gen) rawFragsOp() string {
+	t := g.t
+	b := g.badStream()
+	if t.R.Intn(3) == 0 {
+		b = append(g.framesFor(), b...)
+	}
+	var fs []string
+	for len(b) > 0 {
+		k := 1 + t.R.Intn(min(len(b), 9))
+		fs = append(fs, hx.Hex(b[:k]))
+		b = b[k:]
+		if t.R.Intn(10) == 0 {
+			fs = append(fs, "") // a Read that yields nothing new
+		}
+	}
+	return "gnm frag=" + strings.Join(fs, ",")
+}
+
 func (g *gen) varintStress() []byte {
 	h := g.t
 	k := 1 + h.R.Intn(14)
@@ -922,9 +1189,30 @@ func TestRun(t *testing.T) {
 	// one decoder for two calls: the first result must still read the same after the second call
 	run("pdec2 a=0400000401020304 b=04000004fffefdfc")
 	run("pdec2 a=0400000401020304 b=")
+	// stream layer: encoder output in fragments through the real tcpPlayerConn.GetNextMessage
+	run("srt p=4:0102030405060708090a cut=all")
+	run("srt p=1:7b7d p=2: p=4:01020304 p=3: p=5:ff cut=all")
+	run("srt p=4:0102030405060708090a cut=4")
+	run("srt p=4:0102030405060708090a cut=2,9")
+	run("srt p=4:0102030405060708090a p=4:0b0c cut=")
+	run("srt p=4:" + hx.Hex(h.Bytes(100000)) + " cut=every:1400")
+	run("gnm frag=04,00,00,02,aa")          // body cut short
+	run("gnm frag=0400,00")                 // header cut short
+	run("gnm frag=06000001,00")             // bad type
+	run("gnm frag=")                        // nothing at all
+	run("gnm frag=0400,0001,,7f,030000,00") // empty fragment, then a frame with empty body
+	// payload compression beyond the 16 MiB mark (the packet limit bounds the DEFLATED body only)
+	zs := []string{"zrt n=1000 mode=raw", "zrt n=16777217 mode=raw", "zrt n=17825792 mode=msg"}
+	if h.Thorough() {
+		zs = append(zs, "zrt n=16777215 mode=raw", "zrt n=16777216 mode=raw", "zrt n=16777216 mode=msg", "zrt n=16777217 mode=msg",
+			"zrt n=25165824 mode=raw", "zrt n=33554432 mode=raw", "zrt n=33554432 mode=msg")
+	}
+	for _, z := range zs {
+		run(z)
+	}
 	n := hx.EnvInt("VERIF_N", 4000)
 	for i := 0; i < n; i++ {
-		switch h.R.Intn(13) {
+		switch h.R.Intn(14) {
 		case 0, 1, 2:
 			op, _ := g.msgOp("rt")
 			h.Count("op.rt")
@@ -991,6 +1279,14 @@ func TestRun(t *testing.T) {
 			} else {
 				h.Count("op.pchk")
 				run(fmt.Sprintf("pchk k=%d", h.R.Intn(winCap+1)))
+			}
+		case 13: // stream layer
+			if h.R.Intn(4) == 0 {
+				h.Count("op.gnm")
+				run(g.rawFragsOp())
+			} else {
+				h.Count("op.srt")
+				run(g.streamOp())
 			}
 		case 12:
 			if h.R.Intn(5) == 0 {
